@@ -323,6 +323,23 @@ def _init_before(fn, loop, name):
     return init
 
 
+def copy_ast(node):
+    """structural copy of an AST (fields and positions only).  copy.deepcopy would follow the `_parent` links the
+    loader puts on every node and copy the whole module for each expression."""
+    if isinstance(node, list):
+        return [copy_ast(x) for x in node]
+    if not isinstance(node, ast.AST):
+        return node
+    new = type(node)()
+    for f in node._fields:
+        if hasattr(node, f):
+            setattr(new, f, copy_ast(getattr(node, f)))
+    for a in node._attributes:
+        if hasattr(node, a):
+            setattr(new, a, getattr(node, a))
+    return new
+
+
 class _Subst(ast.NodeTransformer):
     def __init__(self, env):
         self.env = env
@@ -332,8 +349,7 @@ class _Subst(ast.NodeTransformer):
         if isinstance(node.ctx, ast.Load) and node.id in self.env and self.depth < 8:
             self.depth += 1
             try:
-                import copy
-                return self.visit(copy.deepcopy(self.env[node.id]))
+                return self.visit(copy_ast(self.env[node.id]))
             finally:
                 self.depth -= 1
         return node
@@ -342,8 +358,7 @@ class _Subst(ast.NodeTransformer):
 def deep_inline(e, env):
     """copy of expression e with every single-assigned local name replaced by
     its defining expression (recursively); the original tree is untouched"""
-    import copy
-    return ast.fix_missing_locations(_Subst(env).visit(copy.deepcopy(e)))
+    return ast.fix_missing_locations(_Subst(env).visit(copy_ast(e)))
 
 
 def conjuncts(node, fn, env=None):
